@@ -147,17 +147,44 @@ def _now():
         return None
 
 
+_TICKS = {"n": 0}
+
+
+def _tick():
+    """Order of the harness's observation points (request start/end, LLM call start/end) across all conversations."""
+    _TICKS["n"] += 1
+    return _TICKS["n"]
+
+
 class FieldLLM(fakes.ScriptedLLM):
     """ScriptedLLM (real `temperature` / `max_tokens` fields) that also records max_tokens and the loop time of every call."""
 
     def _begin(self, prompt, stop):
         out = super()._begin(prompt, stop)
-        out[4].update(mt_start=self.max_tokens, vt0=_now(), mt_end=None, vt1=None)
+        out[4].update(mt_start=self.max_tokens, vt0=_now(), k0=_tick(), mt_end=None, vt1=None, k1=None)
         return out
 
     def _finish(self, session, rec, answer):
-        rec.update(mt_end=self.max_tokens, vt1=_now())
+        rec.update(mt_end=self.max_tokens, vt1=_now(), k1=_tick())
         return super()._finish(session, rec, answer)
+
+    # parameters handed over per call (**kwargs) take precedence over the attributes, as in LangChain providers
+    def _call(self, prompt: str, stop: Optional[List[str]] = None, run_manager: Any = None, **kwargs: Any) -> str:
+        session, turn, k, task, rec = self._begin(prompt, stop)
+        rec.update(t_start=kwargs.get("temperature", rec["t_start"]), mt_start=kwargs.get("max_tokens", rec["mt_start"]))
+        out = self._finish(session, rec, session.llm_answer(task, prompt, turn, k))
+        rec.update(t_end=kwargs.get("temperature", rec["t_end"]), mt_end=kwargs.get("max_tokens", rec["mt_end"]))
+        return out
+
+    async def _acall(self, prompt: str, stop: Optional[List[str]] = None, run_manager: Any = None, **kwargs: Any) -> str:
+        session, turn, k, task, rec = self._begin(prompt, stop)
+        rec.update(t_start=kwargs.get("temperature", rec["t_start"]), mt_start=kwargs.get("max_tokens", rec["mt_start"]))
+        lat = session.llm_latency(turn, k, task)
+        if lat:
+            await asyncio.sleep(lat)
+        out = self._finish(session, rec, session.llm_answer(task, prompt, turn, k))
+        rec.update(t_end=kwargs.get("temperature", rec["t_end"]), mt_end=kwargs.get("max_tokens", rec["mt_end"]))
+        return out
 
     def snapshot(self):
         return {"temperature": self.temperature, "max_tokens": self.max_tokens}
@@ -182,14 +209,14 @@ class KwargsLLM(LLM):
         task = fakes.classify_prompt(prompt)
         mk = self.model_kwargs
         rec = {"turn": turn, "k": k, "task": task, "prompt": prompt, "stop": stop, "t_start": mk.get("temperature", UNSET), "t_end": None,
-               "mt_start": mk.get("max_tokens", UNSET), "mt_end": None, "vt0": _now(), "vt1": None, "answer": None, "seq": session.tick()}
+               "mt_start": mk.get("max_tokens", UNSET), "mt_end": None, "vt0": _now(), "k0": _tick(), "vt1": None, "k1": None, "answer": None, "seq": session.tick()}
         session.llm_calls.append(rec)
         session.in_flight += 1
         return session, turn, k, task, rec
 
     def _finish(self, session, rec, answer):
         mk = self.model_kwargs
-        rec.update(answer=answer, t_end=mk.get("temperature", UNSET), mt_end=mk.get("max_tokens", UNSET), vt1=_now())
+        rec.update(answer=answer, t_end=mk.get("temperature", UNSET), mt_end=mk.get("max_tokens", UNSET), vt1=_now(), k1=_tick())
         session.in_flight -= 1
         return answer
 
@@ -217,6 +244,10 @@ def _make_llm(spec):
     return KwargsLLM(model_kwargs=dict(KW_CONFIGS[int(spec[2:])]))
 
 
+class _Prob(str):
+    none_added = False
+
+
 class Pipe(pipeline.Pipeline):
     """vf.pipeline.Pipeline with the LLM object of the case (the base class hard-wires fakes.ScriptedLLM)."""
 
@@ -230,8 +261,15 @@ class Pipe(pipeline.Pipeline):
         self.configured = self.llm.snapshot()
 
     def params_problem(self):
+        """None, or a sentence (a str subclass carrying `.none_added`: the only difference is `param: None` entries added to
+        model_kwargs for parameters that were not configured)."""
         now = self.llm.snapshot()
-        return None if now == self.configured else f"LLM object parameters are {now}, configured {self.configured}"
+        if now == self.configured:
+            return None
+        msg = _Prob(f"LLM object parameters are {now}, configured {self.configured}")
+        a, b = now.get("model_kwargs"), self.configured.get("model_kwargs")
+        msg.none_added = a is not None and all(k in a and a[k] == v for k, v in b.items()) and all(a[k] is None for k in a if k not in b)
+        return msg
 
 
 # ------------------------------------------------------------------------------------------------
@@ -305,8 +343,8 @@ class Conv:
             kw["streaming_handler"] = handler
         return kw
 
-    def finish(self, text, n_llm, res, exc, handler):
-        o = {"raised": None, "result": None, "calls": _norm_calls(self.session.llm_calls[n_llm:]), "raw_calls": self.session.llm_calls[n_llm:], "chunks": None}
+    def finish(self, text, n_llm, res, exc, handler, k0=None):
+        o = {"req_k0": k0, "req_k1": _tick(), "raised": None, "result": None, "calls": _norm_calls(self.session.llm_calls[n_llm:]), "raw_calls": self.session.llm_calls[n_llm:], "chunks": None}
         self.messages.append({"role": "user", "content": text})
         if exc is not None:
             o["raised"] = f"{type(exc).__name__}: {exc}"[:400]
@@ -351,11 +389,12 @@ async def turn_async(pipe, conv, t, text):
     n_llm = len(conv.session.llm_calls)
     fakes.set_current(conv.session, t)  # the surrounding task's context is private to it
     res = exc = None
+    k0 = _tick()
     try:
         res = await pipe.rails.generate_async(**kw)
     except Exception as e:
         exc = e
-    return conv.finish(text, n_llm, res, exc, handler)
+    return conv.finish(text, n_llm, res, exc, handler, k0)
 
 
 def _snip(a, b, width=70):
@@ -368,9 +407,11 @@ def _snip(a, b, width=70):
 
 
 def compare_turn(shared, iso, ordered):
-    """None, or (what, sentence) describing how the turn on the shared instance differs from the isolated replay."""
+    """All differences between the turn on the shared instance and in the isolated replay: [(what, sentence, call | None)],
+    at most one per category (raised/prompts/params-start/params-end/reply/returned-*/stream)."""
+    out = []
     if shared["raised"] != iso["raised"]:
-        return "reply", f"generate raised {shared['raised']!r}, isolated replay: {iso['raised']!r}"
+        return [("reply", f"generate raised {shared['raised']!r}, isolated replay: {iso['raised']!r}", None)]
     sp = [c["prompt"] for c in shared["calls"]]
     ip = [c["prompt"] for c in iso["calls"]]
     same_prompts = (sp == ip) if ordered else (Counter(map(str, sp)) == Counter(map(str, ip)))
@@ -381,31 +422,35 @@ def compare_turn(shared, iso, ordered):
             how = f"e.g. {shared['calls'][sp.index(extra[0])]['task']} prompt " + _snip(extra[0], missing[0])
         else:
             how = f"{len(sp)} prompts vs {len(ip)} in the isolated replay"
-        return "prompts", f"the LLM saw different prompts ({how})"
-    key = lambda c: json.dumps(c, sort_keys=True, default=repr)  # noqa: E731
-    sc, ic = shared["calls"], iso["calls"]
-    if not ordered:
-        sc, ic = sorted(sc, key=key), sorted(ic, key=key)
-    for a, b in zip(sc, ic):
-        if a["stop"] != b["stop"]:
-            return "prompts", f"{a['task']} call ran with stop={a['stop']!r}, isolated {b['stop']!r}"
-        for f, name in (("t_start", "temperature at call start"), ("mt_start", "max_tokens at call start")):
-            if a[f] != b[f]:
-                return "params-start", f"{a['task']} call ran with {name} = {a[f]!r}, isolated replay {b[f]!r}"
-    for a, b in zip(sc, ic):
-        for f, name in (("t_end", "temperature at call end"), ("mt_end", "max_tokens at call end")):
-            if a[f] != b[f]:
-                return "params-end", f"{a['task']} call: {name} = {a[f]!r} (start {a[f.replace('end', 'start')]!r}), isolated replay {b[f]!r}"
+        out.append(("prompts", f"the LLM saw different prompts ({how})", None))
+    else:
+        key = lambda c: (str(c["task"]), str(c["prompt"]))  # noqa: E731
+        sc, ic = list(zip(shared["calls"], shared["raw_calls"])), iso["calls"]
+        if not ordered:
+            sc, ic = sorted(sc, key=lambda x: key(x[0])), sorted(ic, key=key)
+        seen = set()
+        for (a, raw), b in zip(sc, ic):
+            if a["stop"] != b["stop"] and "prompts" not in seen:
+                seen.add("prompts")
+                out.append(("prompts", f"{a['task']} call ran with stop={a['stop']!r}, isolated {b['stop']!r}", raw))
+            for f, name in (("t_start", "temperature at call start"), ("mt_start", "max_tokens at call start")):
+                if a[f] != b[f] and "params-start" not in seen:
+                    seen.add("params-start")
+                    out.append(("params-start", f"{a['task']} call ran with {name} = {a[f]!r}, isolated replay {b[f]!r}", (raw, f)))
+            for f, name in (("t_end", "temperature at call end"), ("mt_end", "max_tokens at call end")):
+                if a[f] != b[f] and "params-end" not in seen:
+                    seen.add("params-end")
+                    out.append(("params-end", f"{a['task']} call: {name} = {a[f]!r} (start {a[f.replace('end', 'start')]!r}), isolated replay {b[f]!r}", (raw, f)))
     if shared["result"] != iso["result"]:
         s, i = shared["result"] or {}, iso["result"] or {}
         if s.get("response") != i.get("response"):
-            return "reply", "reply " + _snip(json.dumps(s.get("response"), sort_keys=True), json.dumps(i.get("response"), sort_keys=True))
+            out.append(("reply", "reply " + _snip(json.dumps(s.get("response"), sort_keys=True), json.dumps(i.get("response"), sort_keys=True)), None))
         for k in sorted(set(s) | set(i)):
-            if s.get(k) != i.get(k):
-                return "returned-" + k, f"returned {k} differs: " + _snip(json.dumps(s.get(k), sort_keys=True), json.dumps(i.get(k), sort_keys=True))
+            if k != "response" and s.get(k) != i.get(k):
+                out.append(("returned-" + k, f"returned {k} differs: " + _snip(json.dumps(s.get(k), sort_keys=True), json.dumps(i.get(k), sort_keys=True)), None))
     if shared["chunks"] != iso["chunks"]:
-        return "stream", f"streamed chunks {shared['chunks']!r}, isolated replay {iso['chunks']!r}"[:500]
-    return None
+        out.append(("stream", f"streamed chunks {shared['chunks']!r}, isolated replay {iso['chunks']!r}"[:500], None))
+    return out
 
 
 # ------------------------------------------------------------------------------------------------
@@ -483,10 +528,48 @@ def _resolve_text(spec, i, t, iso):
     return ":".join(_resolve_part(p, i, t, iso) for p in spec)
 
 
+def _item(m):
+    return json.dumps(m["content"]) if m["role"] == "context" else str(m["content"])
+
+
+def _respell(spec, i, iso):
+    """Supplied history that *spells* the transcript conversation j had after its turn k - same ':'-joined text, but
+    adjacent messages merged into one and/or roles changed (user <-> assistant, context -> its JSON text), optionally cut."""
+    if i == 0:
+        return []
+    j, k = int(spec["respell"][0]) % i, int(spec["respell"][1])
+    ts = iso[j]["transcripts"]
+    if not ts:
+        return []
+    T = ts[k % len(ts)]
+    merge, roles = list(spec.get("merge") or [False]), list(spec.get("roles") or [0])
+    groups = [[T[0]]]
+    for b in range(1, len(T)):
+        if merge[(b - 1) % len(merge)]:
+            groups[-1].append(T[b])
+        else:
+            groups.append([T[b]])
+    out = []
+    for g, grp in enumerate(groups):
+        choice = int(roles[g % len(roles)]) % 2  # 0 keep, 1 swap user <-> assistant (context -> user)
+        if len(grp) == 1 and choice == 0:
+            out.append(dict(grp[0]))
+            continue
+        orig = grp[0]["role"]
+        role = ("assistant" if orig == "user" else "user") if choice else (orig if orig in ("user", "assistant") else "user")
+        out.append({"role": role, "content": ":".join(_item(m) for m in grp)})
+    cut = int(spec.get("cut") or 0)
+    if cut:
+        out = out[: max(1, len(out) - cut % len(out))]
+    return out
+
+
 def _resolve_init(init, i, iso):
     out = []
     for m in init:
-        if m["role"] == "context":
+        if "respell" in m:
+            out.extend(_respell(m, i, iso))
+        elif m["role"] == "context":
             out.append({"role": "context", "content": m["content"]})
         else:
             out.append({"role": m["role"], "content": _resolve_text(m["text"], i, 0, iso)})
@@ -499,13 +582,13 @@ def _conv_options(spec):
     return {"log": {"activated_rails": True, "llm_calls": True, "colang_history": spec["log"] == "history"}}
 
 
-def _seq_isolated(case):
+def _seq_isolated(case, problems):
     """Replays every conversation alone on a fresh instance (index order, so references can be resolved)."""
     cfg, api = case["config"], case.get("api", "sync")
     iso = {}
     for i, spec in enumerate(case["convs"]):
         pipe = Pipe(cfg, case["llm"])
-        rec = {"replies": [], "keys": [], "texts": [], "obs": [], "init": None}
+        rec = {"replies": [], "keys": [], "texts": [], "obs": [], "init": None, "transcripts": []}
         iso[i] = rec
         rec["init"] = _resolve_init(spec.get("init", []), i, iso)
         conv = Conv(i, cfg, rec["init"], len(spec["users"]), _conv_options(spec), bool(spec.get("stream")))
@@ -515,15 +598,12 @@ def _seq_isolated(case):
             o = turn_sync(pipe, conv, t, text, api)
             rec["obs"].append(o)
             prob = pipe.params_problem()
-            if prob:
-                raise Violation("llm-params-not-restored", f"[seq/isolated] conversation {i} alone on a fresh instance, after turn {t} ({o['calls'] and [c['task'] for c in o['calls']]}): {prob}",
-                                {"leg": "seq", "overlap": False, "sequential": True})
-            if o["raised"] is None:
-                rec["replies"].append(str(o["message"].get("content")))
-                rec["keys"].append(lossy_key(conv.messages))
-            else:
-                rec["replies"].append("a")
-                rec["keys"].append(lossy_key(conv.messages))
+            if prob and not any(v.kind == "llm-params-not-restored" for v in problems):
+                problems.append(Violation("llm-params-not-restored", f"[seq/isolated] conversation {i} alone on a fresh instance, after turn {t} (LLM calls {[c['task'] for c in o['calls']]}): {prob}",
+                                          {"leg": "seq", "overlap": False, "sequential": True, "none_added": prob.none_added}))
+            rec["replies"].append(str(o["message"].get("content")) if o["raised"] is None else "a")
+            rec["keys"].append(lossy_key(conv.messages))
+            rec["transcripts"].append(json.loads(json.dumps(conv.messages)))
     return iso
 
 
@@ -540,18 +620,27 @@ def _seq_schedule(case):
     return out
 
 
-def run_seq(case):
+def run_seq(case, problems):
     cfg, api = case["config"], case.get("api", "sync")
     labels = ["leg=seq", "llm=" + case["llm"], "api=" + api, "dialog" if cfg.get("dialog") else "general-mode", f"convs={len(case['convs'])}"]
     for cat in ("in", "out"):
         for k in cfg.get(cat, []):
             labels.append(f"{cat}-rail={k}")
-    iso = _seq_isolated(case)
+    iso = _seq_isolated(case, problems)
     shared = Pipe(cfg, case["llm"])
     convs = [Conv(i, cfg, iso[i]["init"], len(s["users"]), _conv_options(s), bool(s.get("stream"))) for i, s in enumerate(case["convs"])]
+    for s in case["convs"]:
+        if any("respell" in m for m in s.get("init", [])):
+            labels.append("supplied-history-spells-other-transcript")
+        elif s.get("init"):
+            labels.append("supplied-history")
+        if s.get("log"):
+            labels.append("log-option")
+        if s.get("stream") and api == "async":
+            labels.append("streaming")
     model = CacheModel()
     nxt = [0] * len(convs)
-    unjudged = set()
+    unjudged, tainted_convs, diverged = set(), set(), set()
     nt = False
     sched = _seq_schedule(case)
     switches = sum(1 for a, b in zip(sched, sched[1:]) if a != b)
@@ -574,8 +663,10 @@ def run_seq(case):
             if hit["foreign"]:
                 labels.append("resumed-foreign-history(not judged)")
                 unjudged.add(i)
-            if hit["tainted"] and not hit["collision"]:
-                labels.append("entry-descends-from-collision")
+            if hit["tainted"]:
+                tainted_convs.add(i)
+                if not hit["collision"]:
+                    labels.append("entry-descends-from-collision")
         if o["raised"] is None:
             if model.write(i, M, o["message"], hit):
                 labels.append("key-overwrite")
@@ -583,29 +674,31 @@ def run_seq(case):
         else:
             labels.append("generate-raised")
         prob = shared.params_problem()
-        if prob:
-            raise Violation("llm-params-not-restored", f"{where}: after the turn, no request in flight: {prob}", {"leg": "seq", "overlap": False, "sequential": True})
-        if i in unjudged:
+        if prob and not any(v.kind == "llm-params-not-restored" for v in problems):
+            problems.append(Violation("llm-params-not-restored", f"{where}: after the turn, no request in flight: {prob}", {"leg": "seq", "overlap": False, "sequential": True, "none_added": prob.none_added}))
+        if i in unjudged or i in diverged:
             continue
-        diff = compare_turn(o, iso[i]["obs"][t], ordered=False)
-        if diff:
-            what, sentence = diff
-            detail = {"leg": "seq", "what": what, "conv": i, "turn": t, "hit": hit}
-            if hit and hit["tainted"]:
-                other = hit["writer"]
-                raise Violation(
-                    "cache-key-collision",
-                    f"{where}: {sentence}. Cache signature: the ':'-joined key {hit['key']!r} of the first {hit['p']} of its {hit['of']} messages is the key "
-                    f"under which conversation {other} stored the events of a different message list ({(hit['stored_for'] or 'an entry that itself descends from a collision')[:200]})",
-                    detail,
-                )
-            raise Violation("seq-" + what, f"{where}: {sentence}; no cache-key collision involved (harness model of the cache: {hit})", detail)
+        diffs = compare_turn(o, iso[i]["obs"][t], ordered=False)
+        if diffs:
+            diverged.add(i)  # its history differs from now on; the other conversations are still judged
+            what, sentence, _ = diffs[0]
+            detail = {"leg": "seq", "what": what, "conv": i, "turn": t, "hit": hit, "tainted": i in tainted_convs}
+            if i in tainted_convs:
+                if hit and hit["tainted"]:
+                    sig = (f"the ':'-joined key {hit['key']!r} of the first {hit['p']} of its {hit['of']} messages is the key under which conversation {hit['writer']} stored "
+                           f"the events of a different message list ({(hit['stored_for'] or 'an entry that itself descends from a collision')[:200]})")
+                else:
+                    sig = "an earlier request of this conversation was answered from a colliding cache entry"
+                problems.append(Violation("cache-key-collision", f"{where}: {sentence}. Cache signature: {sig}", detail))
+            else:
+                problems.append(Violation("seq-" + what, f"{where}: {sentence}; no cache-key collision involved (harness model of the cache: {hit})", detail))
     if unjudged:
         labels.append("some-conversation-not-judged")
     labels.append(f"switches={min(switches, 4)}{'+' if switches > 4 else ''}")
     view = {
         "leg": "seq", "config": cfg, "llm": case["llm"], "api": api, "schedule": sched,
-        "conversations": [{"supplied_history": iso[i]["init"], "users": iso[i]["texts"], "replies": [o["message"].get("content") if o["raised"] is None else o["raised"] for o in convs[i].obs]} for i in range(len(convs))],
+        "conversations": [{"supplied_history": iso[i]["init"], "users": iso[i]["texts"], "options": convs[i].options,
+                           "replies": [o["message"].get("content") if o["raised"] is None else o["raised"] for o in convs[i].obs]} for i in range(len(convs))],
     }
     return ok(nt=nt, labels=sorted(set(labels)), view=json.loads(json.dumps(view, default=repr)))
 
@@ -647,7 +740,7 @@ def _run_loop(coro_fn):
         loop.shutdown(run_cancelled=not interrupted)
 
 
-def _conc_isolated(case):
+def _conc_isolated(case, problems):
     cfg = case["config"]
     iso = []
     for i, ts in enumerate(case["tasks"]):
@@ -656,32 +749,31 @@ def _conc_isolated(case):
         texts = _task_texts(i, ts)
 
         async def main(loop, pipe=pipe, conv=conv, texts=texts):
+            first = []
             for t, text in enumerate(texts):
                 await turn_async(pipe, conv, t, text)
                 prob = pipe.params_problem()
                 if prob:
-                    return f"after turn {t}: {prob}"
-            return None
+                    p2 = _Prob(f"after turn {t}: {prob}")
+                    p2.none_added = prob.none_added
+                    first.append(p2)
+            return first[0] if first else None
 
         prob = _run_loop(main)
-        if prob:
-            raise Violation("llm-params-not-restored", f"[conc/isolated] task {i} alone on a fresh instance (options {conv.options}), {prob}", {"leg": "conc", "overlap": False, "sequential": True})
+        if prob and not any(v.kind == "llm-params-not-restored" for v in problems):
+            problems.append(Violation("llm-params-not-restored", f"[conc/isolated] task {i} alone on a fresh instance (options {conv.options}), {prob}", {"leg": "conc", "overlap": False, "sequential": True, "none_added": prob.none_added}))
         iso.append(conv)
     return iso
 
 
-def _overlaps(a, b):
-    return a["vt0"] is not None and b["vt0"] is not None and a["vt0"] < b["vt1"] and b["vt0"] < a["vt1"]
-
-
-def run_conc(case):
+def run_conc(case, problems):
     cfg = case["config"]
     tasks = case["tasks"]
     labels = ["leg=conc", "llm=" + case["llm"], "dialog" if cfg.get("dialog") else "general-mode", f"tasks={len(tasks)}"]
     for cat in ("in", "out"):
         for k in cfg.get(cat, []):
             labels.append(f"{cat}-rail={k}")
-    iso = _conc_isolated(case)
+    iso = _conc_isolated(case, problems)
     shared = Pipe(cfg, case["llm"])
     convs = [Conv(i, cfg, [], len(ts["users"]), _task_options(ts), bool(ts.get("stream")), ts.get("lat")) for i, ts in enumerate(tasks)]
     state = {"active": 0, "idle_problems": [], "idle_checks": 0}
@@ -690,7 +782,7 @@ def run_conc(case):
         state["idle_checks"] += 1
         prob = shared.params_problem()
         if prob:
-            state["idle_problems"].append((loop.time(), f"{when} at virtual time {loop.time():.4f} (no request in flight): {prob}"))
+            state["idle_problems"].append((_tick(), prob.none_added, f"{when} at virtual time {loop.time():.4f} (no request in flight): {prob}"))
 
     async def one(loop, i):
         if tasks[i]["start"]:
@@ -712,29 +804,37 @@ def run_conc(case):
 
     _run_loop(main)
 
-    # schedule facts (labels, non-triviality, signature of the parameter race)
-    calls = []  # (task, turn index, k, shared record, expected record from the isolated replay | None)
+    # schedule facts (labels, non-triviality, signature of the parameter race).  Intervals are in *ticks*: the order of
+    # the harness's observation points, which refines virtual time (tasks also interleave at equal virtual instants,
+    # LangChain's agenerate yields to the loop even with zero latency).
+    calls = []
     for i, conv in enumerate(convs):
         for t, o in enumerate(conv.obs):
             exp = iso[i].obs[t]["calls"] if t < len(iso[i].obs) else []
+            marks = [o["req_k0"]] + [x for rc in o["raw_calls"] for x in (rc["k0"], rc["k1"])] + [o["req_k1"]]
             for k, rc in enumerate(o["raw_calls"]):
-                calls.append({"task": i, "turn": t, "k": k, "vt0": rc["vt0"], "vt1": rc["vt1"], "got": rc, "exp": exp[k] if k < len(exp) else None})
+                # the `with llm_params(...)` block around the call lies between the task's previous and next observation point
+                calls.append({"task": i, "turn": t, "k": k, "k0": rc["k0"], "k1": rc["k1"], "e0": marks[2 * k], "e1": marks[2 * k + 3], "got": rc, "exp": exp[k] if k < len(exp) else None})
     mk = shared.configured.get("model_kwargs", {})
     conf_pair = (shared.configured.get("temperature", mk.get("temperature", UNSET)), shared.configured.get("max_tokens", mk.get("max_tokens", UNSET)))
     overlapping, crossing, racing = 0, 0, []
     for x in range(len(calls)):
         for y in range(x + 1, len(calls)):
             a, b = calls[x], calls[y]
-            if a["task"] == b["task"] or not _overlaps(a, b):
+            if a["task"] == b["task"]:
                 continue
-            overlapping += 1
-            first, second = (a, b) if (a["vt0"], x) <= (b["vt0"], y) else (b, a)
-            if second["vt1"] > first["vt1"]:
-                crossing += 1
-            if any(c["exp"] and (c["exp"]["t_start"], c["exp"]["mt_start"]) != conf_pair for c in (a, b)):
-                racing.append((max(a["vt0"], b["vt0"]), a["task"], b["task"]))
+            if a["k0"] < b["k1"] and b["k0"] < a["k1"]:
+                overlapping += 1
+                first, second = (a, b) if a["k0"] < b["k0"] else (b, a)
+                if second["k1"] > first["k1"]:
+                    crossing += 1
+            if a["e0"] < b["e1"] and b["e0"] < a["e1"] and any(c["exp"] and (c["exp"]["t_start"], c["exp"]["mt_start"]) != conf_pair for c in (a, b)):
+                racing.append((max(a["e0"], b["e0"]), a["task"], b["task"]))
     nt = crossing > 0
     labels.append("overlap=" + ("crossing" if crossing else "nested-only" if overlapping else "none"))
+    vt_cross = any(a["task"] != b["task"] and a["got"]["vt0"] < b["got"]["vt0"] < a["got"]["vt1"] < b["got"]["vt1"] for a in calls for b in calls)
+    if vt_cross:
+        labels.append("crossing-in-virtual-time")
     if racing:
         labels.append("overlapping-calls-with-altered-params")
     if any(ts.get("temp") is not None or ts.get("mt") is not None for ts in tasks):
@@ -747,37 +847,31 @@ def run_conc(case):
     configured_vals = {"t": [conf_pair[0], None], "mt": [conf_pair[1], None]}
 
     def race_detail(i, at=None):
-        """Signature of the llm_params race: calls of different tasks that asked for different parameters overlapped."""
+        """Signature of the llm_params race: `with llm_params` blocks of different tasks, at least one of them altering a
+        parameter, were open at the same time before the observation."""
         before = [r for r in racing if at is None or r[0] <= at]
         others_t = sorted({repr(c["exp"]["t_start"]) for c in calls if c["exp"] and c["task"] != i} | {repr(v) for v in configured_vals["t"]})
         others_mt = sorted({repr(c["exp"]["mt_start"]) for c in calls if c["exp"] and c["task"] != i} | {repr(v) for v in configured_vals["mt"]})
         return {"leg": "conc", "overlap": bool(before), "n_racing_pairs": len(before), "other_values_t": others_t, "other_values_mt": others_mt}
 
-    # differential, in order of virtual time of the turn's first call
+    # differential
     for i, conv in enumerate(convs):
         for t, o in enumerate(conv.obs):
             where = f"[conc] task {i} turn {t} (options {conv.options}, start offset {tasks[i]['start']}, {len(tasks)} tasks on one instance)"
-            diff = compare_turn(o, iso[i].obs[t], ordered=True)
-            if not diff:
-                continue
-            what, sentence = diff
-            if what in ("params-start", "params-end"):
-                bad = None
-                for rc, ec in zip(o["raw_calls"], iso[i].obs[t]["calls"]):
-                    for f in (("t_start", "mt_start") if what == "params-start" else ("t_end", "mt_end")):
-                        if bad is None and rc[f] != ec[f]:
-                            bad = (rc, f)
-                rc, f = bad
-                d = race_detail(i, rc["vt0"] if what == "params-start" else rc["vt1"])
-                d.update(what=what, observed=repr(rc[f]), field=f, observed_is_foreign=repr(rc[f]) in (d["other_values_t"] if f.startswith("t_") else d["other_values_mt"]))
-                kind = "llm-params-leak" if what == "params-start" else "llm-params-changed-during-call"
-                raise Violation(kind, f"{where}: {sentence}; call in flight {rc['vt0']:.4f}-{rc['vt1']:.4f} virtual s; {d['n_racing_pairs']} overlapping call pairs of different tasks with altered parameters before that instant", d)
-            raise Violation("conc-" + what, f"{where}: {sentence}", {"leg": "conc", "what": what, "overlap": bool(racing)})
+            for what, sentence, extra in compare_turn(o, iso[i].obs[t], ordered=True):
+                if what in ("params-start", "params-end") and extra is not None:
+                    rc, f = extra
+                    d = race_detail(i, rc["k0"] if what == "params-start" else rc["k1"])
+                    d.update(what=what, observed=repr(rc[f]), field=f, unconfigured_param=conf_pair[0 if f.startswith("t_") else 1] == UNSET, observed_is_foreign=repr(rc[f]) in (d["other_values_t"] if f.startswith("t_") else d["other_values_mt"]))
+                    kind = "llm-params-leak" if what == "params-start" else "llm-params-changed-during-call"
+                    problems.append(Violation(kind, f"{where}: {sentence}; call in flight {rc['vt0']:.4f}-{rc['vt1']:.4f} virtual s; {d['n_racing_pairs']} pairs of `with llm_params` blocks of different tasks (at least one altering a parameter) were open at the same time before that observation", d))
+                else:
+                    problems.append(Violation("conc-" + what, f"{where}: {sentence}", {"leg": "conc", "what": what, "overlap": bool(racing)}))
     if state["idle_problems"]:
-        at, msg = state["idle_problems"][0]
+        at, none_added, msg = state["idle_problems"][0]
         d = race_detail(-1, at)
-        d["what"] = "idle"
-        raise Violation("llm-params-not-restored", f"[conc] {len(tasks)} tasks on one instance: {msg}; {d['n_racing_pairs']} overlapping call pairs of different tasks with altered parameters before that instant", d)
+        d.update(what="idle", none_added=none_added)
+        problems.append(Violation("llm-params-not-restored", f"[conc] {len(tasks)} tasks on one instance: {msg}; {d['n_racing_pairs']} pairs of `with llm_params` blocks of different tasks (at least one altering a parameter) were open at the same time before that observation", d))
     view = {
         "leg": "conc", "config": cfg, "llm": case["llm"],
         "tasks": [{"start": ts["start"], "options": convs[i].options, "stream": bool(ts.get("stream")), "latencies": ts.get("lat"), "users": _task_texts(i, ts),
@@ -792,12 +886,20 @@ def run_conc(case):
 
 
 def _run(case):
+    """Runs the case; every departure is collected, the one raised is the first that is NOT an instance of a finding
+    signature below (so a listed finding cannot hide anything else), else the first one."""
+    problems = []
+    _TICKS["n"] = 0
     try:
-        return run_seq(case) if case["leg"] == "seq" else run_conc(case)
+        res = run_seq(case, problems) if case["leg"] == "seq" else run_conc(case, problems)
     except BaseException as e:
         if not isinstance(e, Exception):
             pipeline.reset_runtime()
         raise
+    if problems:
+        unknown = [v for v in problems if known(case, v) is None]
+        raise (unknown or problems)[0]
+    return res
 
 
 def prop(case):
@@ -826,15 +928,19 @@ def known(case, violation):
              parameters at rest differ from the configured ones without any concurrency.
     """
     d = violation.detail or {}
-    if violation.kind == "cache-key-collision" and d.get("hit") and d["hit"].get("tainted"):
+    if violation.kind == "cache-key-collision" and d.get("tainted"):
         return "C15-F9a"
-    if violation.kind in ("llm-params-leak", "llm-params-changed-during-call") and d.get("overlap") and d.get("observed_is_foreign"):
-        return "C15-F9b"
+    kw = str(case.get("llm", "")).startswith("kw")
+    if violation.kind in ("llm-params-leak", "llm-params-changed-during-call"):
+        if kw and d.get("unconfigured_param") and d.get("observed") == "None":
+            return "C15-F9c"  # the None left behind by an earlier call is what this call ran with
+        if d.get("overlap") and d.get("observed_is_foreign"):
+            return "C15-F9b"
     if violation.kind == "llm-params-not-restored":
+        if kw and d.get("none_added"):
+            return "C15-F9c"
         if d.get("overlap") and not d.get("sequential"):
             return "C15-F9b"
-        if d.get("sequential") and str(case.get("llm", "")).startswith("kw") and KW_CONFIGS[int(case["llm"][2:])] != KW_CONFIGS[0]:
-            return "C15-F9c"
     return None
 
 
@@ -851,7 +957,7 @@ SEQ_CFGS = [
     {"v": 1, "in": ["self"], "out": [], "dialog": False, "exc": False, "ret": 0},
     {"v": 1, "in": [], "out": ["self"], "dialog": True, "exc": False, "ret": 0},
 ]
-LLMS = ["field", "field", "field", "field", "kw0", "kw0", "kw1", "kw2"]
+LLMS = ["field"] * 5 + ["kw0"] * 3 + ["kw1", "kw1", "kw2", "kw2"]
 TEMPS = [None, None, 0.0, 0.2, 0.5, 0.9, 1.3]
 MTS = [None, None, None, 16, 64]
 LATS = [0, 0.01, 0.05, 0.1, 0.1, 0.2, 0.3, 0.5, 1.0]
@@ -869,19 +975,30 @@ def _st_part(i):
 
 @st.composite
 def _st_init(draw, i):
-    n = draw(st.sampled_from([0, 0, 0, 1, 2, 2, 3]))
     out = []
+    if i >= 1 and draw(st.sampled_from([True, True, False])):
+        # the transcript of an earlier conversation, spelled differently (the shape that makes ':'-joined keys collide)
+        merge = draw(st.lists(st.sampled_from([False, False, True]), min_size=1, max_size=5))
+        roles = draw(st.lists(st.sampled_from([0, 0, 1]), min_size=1, max_size=5))
+        if not any(merge) and not any(roles) and draw(st.sampled_from([True, True, True, False])):
+            roles[0] = 1  # an unchanged transcript is the same conversation for the instance (not judged): keep that rare
+        out.append({"respell": [draw(st.integers(0, i - 1)), draw(st.integers(0, 2))], "merge": merge, "roles": roles, "cut": draw(st.sampled_from([0, 0, 0, 1, 2]))})
+        n = draw(st.sampled_from([0, 0, 0, 1]))
+    else:
+        n = draw(st.sampled_from([0, 0, 0, 1, 2, 2, 3]))
     for _ in range(n):
         role = draw(st.sampled_from(["user", "user", "assistant", "assistant", "context"]))
         if role == "context":
             out.append({"role": "context", "content": draw(st.sampled_from(CONTEXTS))})
         else:
             out.append({"role": role, "text": draw(st.lists(_st_part(i), min_size=1, max_size=2))})
+    if draw(st.sampled_from([False, False, False, True])):
+        out.reverse()
     return out
 
 
 @st.composite
-def _seq_case(draw):
+def _seq_case(draw, llms=None):
     cfg = draw(st.sampled_from(SEQ_CFGS))
     n = draw(st.sampled_from([2, 2, 3, 3, 4]))
     convs = []
@@ -896,12 +1013,14 @@ def _seq_case(draw):
         )
     total = sum(len(c["users"]) for c in convs)
     order = draw(st.lists(st.integers(0, n - 1), min_size=total, max_size=total))
-    return {"leg": "seq", "config": cfg, "llm": draw(st.sampled_from(LLMS)), "api": draw(st.sampled_from(["sync", "async"])), "convs": convs, "order": order}
+    return {"leg": "seq", "config": cfg, "llm": draw(st.sampled_from(llms or LLMS)), "api": draw(st.sampled_from(["sync", "async"])), "convs": convs, "order": order}
 
 
 @st.composite
-def _conc_case(draw):
-    cfg = draw(st.sampled_from(SEQ_CFGS))
+def _conc_case(draw, llms=None, quiet=False):
+    """quiet=True: no call alters an LLM parameter (general mode, no self-check rail, no llm_params) - the sub-domain that
+    stays judgeable while the llm_params race is a listed open finding."""
+    cfg = draw(st.sampled_from([c for c in SEQ_CFGS if not c["dialog"] and "self" not in c["in"] + c["out"]] if quiet else SEQ_CFGS))
     n = draw(st.sampled_from([2, 2, 3, 3, 4, 5]))
     tasks = []
     for _ in range(n):
@@ -909,18 +1028,31 @@ def _conc_case(draw):
             {
                 "start": draw(st.sampled_from(STARTS)),
                 "users": draw(st.lists(st.sampled_from(CONC_ATOMS), min_size=1, max_size=2)),
-                "temp": draw(st.sampled_from(TEMPS)),
-                "mt": draw(st.sampled_from(MTS)),
+                "temp": None if quiet else draw(st.sampled_from(TEMPS)),
+                "mt": None if quiet else draw(st.sampled_from(MTS)),
                 "log": draw(st.booleans()),
                 "stream": draw(st.sampled_from([False, False, True])),
                 "lat": draw(st.lists(st.sampled_from(LATS), min_size=1, max_size=4)),
             }
         )
-    return {"leg": "conc", "config": cfg, "llm": draw(st.sampled_from(LLMS)), "tasks": tasks}
+    return {"leg": "conc", "config": cfg, "llm": draw(st.sampled_from(llms or LLMS)), "tasks": tasks}
+
+
+def _open_findings():
+    from vf.core import load_known
+
+    return {f["id"] for f in load_known() if f.get("property") == PID and f.get("status") == "open"}
 
 
 def strategy(tier):
-    return st.one_of(_seq_case(), _conc_case())
+    """DESIGN 2.6: while a finding is listed *open*, most of the budget goes to the sub-domain that does not trigger it (the
+    rest still exercises it: instances are classified by `known`, anything with another signature is reported)."""
+    opened = _open_findings()
+    llms = ["field"] * 5 + ["kw0"] * 3 + (["kw1", "kw1", "kw2", "kw2"] if "C15-F9c" not in opened else ["kw1"])
+    conc = [_conc_case(llms)]
+    if "C15-F9b" in opened:
+        conc = [_conc_case(llms, quiet=True)] * 3 + conc
+    return st.one_of(*([_seq_case(llms)] * len(conc) + conc))
 
 
 def budget(tier):
